@@ -1,4 +1,4 @@
-import OtelVerif.Lemmas.Batch.Live
+import OtelVerif.Lemmas.Batch.LiveShut
 /-! # C02 — "…and always return": progress of the flush protocol
 
 `Props/C02.lean` proves what is true when `ForceFlush` / `Shutdown` return and that no thread is ever stuck.  Here the
@@ -62,6 +62,37 @@ theorem queue_within_capacity {maxQ maxB : Nat} (hb : 1 ≤ maxB) (pre : List Ac
   have := (reachable_qc maxQ maxB hb pre s h0).1
   rw [(cfg_run _ _ pre h0).2] at this; exact this
 
+/-- **Shutdown's join returns**: from every reachable state in which `is_shutdown` is set, along every continuation
+    during which the environment is quiet (no producer that had already passed the `is_shutdown` test commits a record,
+    no `ForceFlush` caller that had passed it issues a ticket: `head` and `pending` unchanged), the worker has reached
+    the end of `DoBackgroundWork` once it has made `32 * (maxQ + unpublished tickets) + 32` transitions; the queue is
+    then empty and everything is exported (`shutdown_drains`), and the `join()` of the `Shutdown` caller is enabled -/
+theorem worker_terminates_within {maxQ maxB : Nat} (hb : 1 ≤ maxB) (pre post : List Act) (s s' : St)
+    (h0 : run (init maxQ maxB) pre = some s) (hsd : s.isShutdown = true) (h1 : run s post = some s')
+    (hh : s'.head = s.head) (hp : s'.pending = s.pending)
+    (hfair : 32 * (maxQ + (s.pending - s.notified)) + 32 ≤ wcount post) : s'.wpc = .done := by
+  have hI := reachable_inv maxQ maxB hb pre s h0
+  have hQ := reachable_qc maxQ maxB hb pre s h0
+  have hq : s.maxQ = maxQ := (cfg_run _ _ pre h0).2
+  have hr := rank2_le s hQ
+  exact done_of_wcount post s s' hI hQ hsd h1 hh hp (by rw [hq] at hr; omega)
+
+/-- the measure behind it, for one transition after `is_shutdown`: a worker transition strictly lowers `rank2`; a
+    transition of any other thread that neither commits a record nor issues a ticket leaves it alone -/
+theorem rank2_decreases {maxQ maxB : Nat} (hb : 1 ≤ maxB) (pre : List Act) (s s' : St) (a : Act)
+    (h0 : run (init maxQ maxB) pre = some s) (hsd : s.isShutdown = true) (h : step s a = some s') :
+    (isW a = true → rank2 s' < rank2 s) ∧
+    (isW a = false → s'.head = s.head → s'.pending = s.pending → rank2 s' = rank2 s) := by
+  have hI := reachable_inv maxQ maxB hb pre s h0
+  have hQ := reachable_qc maxQ maxB hb pre s h0
+  obtain ⟨_, _, _, a4, a5⟩ := quiet_step s s' a hI hQ hsd h
+  exact ⟨fun ha => (a4 ha).1, a5⟩
+
+/-- … and once the worker has finished, the `Shutdown` caller that waits in `join()` can go on -/
+theorem join_enabled_when_done (s : St) (i : Nat) (a : Bool) (hj : s.sd i = .joinW a) (hd : s.wpc = .done) :
+    (step s (.sStep i)).isSome = true := by
+  simp [step, sStep, hj, hd]
+
 /-! ## Non-vacuity: a schedule that meets the hypotheses (one queued record, one ticket, then 34 worker transitions) -/
 def demoPre : List Act :=
   [.pStep 0 false, .pStep 0 false, .pStep 0 false,          -- one record committed
@@ -77,5 +108,19 @@ example : (run (init 1 1) demoPre).map (fun s => (s.pending, s.notified, s.head)
 example : ((run (init 1 1) demoPre).bind (fun s => run s demoPost)).map (fun s => (s.pending, s.notified, s.exported)) =
     some (1, 1, 1) := by decide
 example : 5 * 1 + 24 ≤ wcount demoPost := by decide
+
+
+/-- shutdown: one queued record, `Shutdown` sets the flag, the worker drains and finishes (rank2 of the start is 96) -/
+def demoShutPre : List Act :=
+  [.pStep 0 false, .pStep 0 false, .pStep 0 false,          -- one record committed
+   .sStep 0, .sStep 0, .sStep 0]                            -- Shutdown: begin, lock, is_shutdown := true (then waits in join)
+def demoShutPost : List Act :=
+  [.wWake, .wStep, .wStep, .wStep,                          -- chk -> dEmpty -> (queue not empty) ticket -> size
+   .wStep, .wStep, .wStep, .wStep, .wStep,                  -- consume, exportB, exportE, nChk (R = 0), back to ticket
+   .wStep, .wStep, .wStep,                                  -- size (empty), nChk, dEmpty
+   .wStep, .wStep, .wStep]                                  -- dPend, dNot, done
+example : (run (init 1 1) demoShutPre).map (fun s => (s.isShutdown, s.head, s.pending, rank2 s)) = some (true, 1, 0, 37) := by decide
+example : ((run (init 1 1) demoShutPre).bind (fun s => run s demoShutPost)).map (fun s => (s.wpc, s.head, s.pending, s.exported)) =
+    some (.done, 1, 0, 1) := by decide
 
 end Otel.C02
